@@ -50,7 +50,7 @@ private theorem noSpreads_two (f1 f2 : Sel) (h1 : ∃ al n, f1 = fld al n) (h2 :
   subst e
   simp [nodes, opV, fld, defNodes, selsNodes, selNodes, argsNodes, dirsNodes] at hn
 
-private theorem parentsAgree_two (f1 f2 : Sel) (h1 : ∃ al n, f1 = fld al n) (h2 : ∃ al n, f2 = fld al n) :
+theorem parentsAgree_twoFields (f1 f2 : Sel) (h1 : ∃ al n, f1 = fld al n) (h2 : ∃ al n, f2 = fld al n) :
     Spec.ParentsAgree oSchema ⟨[opV [] 1 [f1, f2]]⟩ := by
   obtain ⟨al1, n1, rfl⟩ := h1
   obtain ⟨al2, n2, rfl⟩ := h2
@@ -81,13 +81,13 @@ private theorem parentsAgree_two (f1 f2 : Sel) (h1 : ∃ al n, f1 = fld al n) (h
 /-- `{ a  y: a }`: the hypotheses hold, the rule is silent, and so the clause holds -/
 example : Spec.overlappingFieldsCanBeMerged oSchema oDocOk :=
   rule_overlapping_fields_sound_spreadfree_partial oSchema Fixes.all rfl oDocOk
-    (noSpreads_two _ _ ⟨_, _, rfl⟩ ⟨_, _, rfl⟩) (parentsAgree_two _ _ ⟨_, _, rfl⟩ ⟨_, _, rfl⟩)
+    (noSpreads_two _ _ ⟨_, _, rfl⟩ ⟨_, _, rfl⟩) (parentsAgree_twoFields _ _ ⟨_, _, rfl⟩ ⟨_, _, rfl⟩)
     (by unfold NoCrash; decide +kernel) (by unfold Silent; decide +kernel)
 
 /-- `{ x: a  x: b }`: the hypotheses hold, the rule reports, and the clause fails -/
 example : ¬ Spec.overlappingFieldsCanBeMerged oSchema oDocBad := fun h =>
   absurd ((rule_overlapping_fields_iff_spreadfree_partial oSchema Fixes.all rfl oDocBad
-    (noSpreads_two _ _ ⟨_, _, rfl⟩ ⟨_, _, rfl⟩) (parentsAgree_two _ _ ⟨_, _, rfl⟩ ⟨_, _, rfl⟩)
+    (noSpreads_two _ _ ⟨_, _, rfl⟩ ⟨_, _, rfl⟩) (parentsAgree_twoFields _ _ ⟨_, _, rfl⟩ ⟨_, _, rfl⟩)
     (by unfold NoCrash; decide +kernel)).mpr h) (by unfold Silent; decide +kernel)
 
 end PyGql.Props.C06
